@@ -383,6 +383,60 @@ def consequences(ctx):
                     viol(f'sign:detector-above-horizontal-beam:{"optimised" if tn == "t0" else "general"}',
                          f'detector above a horizontal beam (tilt {tn[1:]} rad): gravity-corrected two_theta {gv[k]!r} is not larger than the '
                          f'gravity-free angle {fv[k]!r} - the beam was lowered instead of raised', [tn, fn_])
+    # 4. per-pixel incident beams: element k of the result for an ARRAY of incident beams equals the result of the scalar call
+    #    with beam k; the reflectometry variant must refuse the array as soon as ONE beam is not perpendicular to gravity
+    groups, meta = [], []
+    for ci in range(3 if ctx.tier == 'quick' else 12):
+        up, u, w = frame(rng, False)
+        gm = rng.choice([9.81, 100.0])
+        g = [-gm * c for c in up]
+        lam = rng.uniform(2, 30)
+        tilts = [0.0, rng.choice([0.05, 1e-3, 1e-6]), 0.0]
+        b1s = [[math.cos(t) * a + math.sin(t) * b for a, b in zip(u, up)] for t in tilts]
+        dets = []
+        for _ in range(3):
+            a, b, c = rng.uniform(-2, 2), rng.uniform(-2, 2), rng.uniform(0.5, 5)
+            dets.append([a * w[i] + b * up[i] + c * u[i] for i in range(3)])
+        for fn in ('sawg', 'yz'):
+            for sel, nm in (([0, 1, 2], 'mixed'), ([0, 2], 'all-perpendicular')):
+                grp = _grp(len(groups), fn, b1s[0], [dets[i] for i in sel], lam, g)
+                grp['b1s'] = [[hx(c) for c in b1s[i]] for i in sel]
+                grp['layout'] = 'zip'
+                groups.append(grp)
+                meta.append((ci, fn, nm, sel, None))
+                for i in sel:
+                    groups.append(_grp(len(groups), fn, b1s[i], [dets[i]], lam, g))
+                    meta.append((ci, fn, nm, sel, i))
+    res = ctx.run_impl('c04_impl.py', {'groups': groups})
+    by = {}
+    for m, g_, r in zip(meta, groups, res['groups']):
+        by[m[:3] + (m[4],)] = (g_, r)
+    for (ci, fn, nm, sel, i), g_, r in zip(meta, groups, res['groups']):
+        if i is not None:
+            continue
+        n_checks += 1
+        name = 'two_theta' if fn == 'sawg' else 'gamma'
+        scal = [by[(ci, fn, nm, k)][1] for k in sel]
+        want_raise = fn == 'yz' and nm == 'mixed'
+        desc = {'kind': 'consequence', 'check': f'array-incident-beam:{fn}:{nm}', 'groups': [g_] + [by[(ci, fn, nm, k)][0] for k in sel]}
+        if want_raise:
+            if 'result' in r:
+                ctx.violation('refusal:array-incident-beam', 'scattering_angle_in_yz_plane returned angles for an ARRAY of incident beams one of which '
+                              f'is tilted out of the horizontal (it raises ValueError for that beam alone): {_vals(r, name)}', desc)
+                found.append(desc)
+            continue
+        if 'result' not in r:
+            if all('result' in x for x in scal):
+                ctx.violation(f'array-incident-beam:{fn}:raises', f'{fn} raises {r.get("error")} for an array of incident beams each of which is accepted alone', desc)
+                found.append(desc)
+            continue
+        av = _vals(r, name)
+        for k, x in enumerate(scal):
+            if 'result' in x and not abs(av[k] - _vals(x, name)[0]) <= 1e-9:
+                ctx.violation(f'array-incident-beam:{fn}:value', f'{fn} element {k} for an array of incident beams is {av[k]!r}, the scalar call with that beam '
+                              f'gives {_vals(x, name)[0]!r}', desc)
+                found.append(desc)
+                break
     ctx.coverage['consequence_checks'] = n_checks
     return found
 
